@@ -516,6 +516,7 @@ int main(int argc, char **argv) {
   go.unitRows = argi("unitRows", 0);
   go.tallMix = argi("tallMix", 0);
   go.twoTypes = argi("twoTypes", 0);
+  go.clump = argi("clump", 0);
   go.zeroAreaMovable = argi("zeroAreaMovable", 0);
   go.utilLo = atof(args("utilLo", "0.05").c_str());
   go.utilHi = atof(args("utilHi", "1.3").c_str());
